@@ -19,38 +19,52 @@ theorem numCpus_pos (k : Option Int) : 0 < numCpus k := by
       linarith
 
 /-- the arithmetic: `(Δproc / (Δwall·n)) · 100 · n`, rounded = `round1(100·Δproc/Δwall)` -/
-theorem procFinish_eq (c : Cfg) (hg : c.Good) (tck : Nat) (k : Option Int) (w1 w2 : Rat) (u1 s1 u2 s2 : Nat) :
-    procFinish c (numCpus k)
-        ⟨w1 * numCpus k, procSecs tck u1, procSecs tck s1⟩
-        ⟨w2 * numCpus k, procSecs tck u2, procSecs tck s2⟩
-      = round1 (procExact tck u1 s1 u2 s2 w1 w2) := by
-  have hn := numCpus_pos k
+theorem procFinish_scaled (c : Cfg) (hg : c.Good) (tck : Nat) (n : Rat) (hn : 0 < n) (w1 w2 : Rat)
+    (u1 s1 u2 s2 : Nat) (a b : PLast)
+    (ha : a = ⟨a.sys, procSecs tck u1, procSecs tck s1⟩) (hb : b = ⟨b.sys, procSecs tck u2, procSecs tck s2⟩)
+    (hd : (if c.procScaleDelta then (b.sys - a.sys) * n else b.sys - a.sys) = (w2 - w1) * n) :
+    procFinish c n a b = round1 (procExact tck u1 s1 u2 s2 w1 w2) := by
   unfold procFinish procExact round1
-  simp only [hg.procFactor, hg.procDigits]
+  simp only [hd, hg.procFactor, hg.procDigits]
+  rw [ha, hb]
+  simp only
   by_cases hw : w2 - w1 = 0
-  · have : w2 * numCpus k - w1 * numCpus k = 0 := by
-      have : w2 * numCpus k - w1 * numCpus k = (w2 - w1) * numCpus k := by ring
-      rw [this, hw]; ring
-    simp [hw, this, roundN_one_zero]
-  · have hne : w2 * numCpus k - w1 * numCpus k ≠ 0 := by
-      have : w2 * numCpus k - w1 * numCpus k = (w2 - w1) * numCpus k := by ring
-      rw [this]
-      exact mul_ne_zero hw (ne_of_gt hn)
+  · simp [hw, roundN_one_zero]
+  · have hne : (w2 - w1) * n ≠ 0 := mul_ne_zero hw (ne_of_gt hn)
     simp only [hw, hne, if_false]
     congr 1
-    have hn' : numCpus k ≠ 0 := ne_of_gt hn
+    have hn' : n ≠ 0 := ne_of_gt hn
     unfold procSecs
     push_cast
     field_simp
+
+/-- … for the code as found or repaired, when both stamps were taken with the same CPU count -/
+theorem procFinish_eq (c : Cfg) (hg : c.Good) (tck : Nat) (k : Option Int) (w1 w2 : Rat) (u1 s1 u2 s2 : Nat) :
+    procFinish c (numCpus k)
+        ⟨procStamp c (numCpus k) w1, procSecs tck u1, procSecs tck s1⟩
+        ⟨procStamp c (numCpus k) w2, procSecs tck u2, procSecs tck s2⟩
+      = round1 (procExact tck u1 s1 u2 s2 w1 w2) := by
+  apply procFinish_scaled c hg tck (numCpus k) (numCpus_pos k) w1 w2 u1 s1 u2 s2 _ _ rfl rfl
+  unfold procStamp
+  cases c.procScaleDelta <;> simp <;> ring
+
+/-- … for the repaired shape the stamps are raw clock values, so the CPU count of the earlier
+    call does not enter at all -/
+theorem procFinish_fixed (c : Cfg) (hg : c.Good) (hs : c.procScaleDelta = true) (tck : Nat)
+    (k : Option Int) (w1 w2 : Rat) (u1 s1 u2 s2 : Nat) :
+    procFinish c (numCpus k) ⟨w1, procSecs tck u1, procSecs tck s1⟩ ⟨w2, procSecs tck u2, procSecs tck s2⟩
+      = round1 (procExact tck u1 s1 u2 s2 w1 w2) := by
+  apply procFinish_scaled c hg tck (numCpus k) (numCpus_pos k) w1 w2 u1 s1 u2 s2 _ _ rfl rfl
+  simp [hs]
 
 /-- after any history with a constant CPU count, an object's remembered samples are those of
     its own previous call -/
 theorem prunAll_entry (c : Cfg) (hg : c.Good) (tck : Nat) (k : Option Int) (h : List PCall) (hk : ∀ p ∈ h, p.ncpuRaw = k) :
     ∀ (s : PSt) (q : Option (Rat × Nat × Nat)) (o : Nat),
-      s o = q.map (fun x => ⟨x.1 * numCpus k, procSecs tck x.2.1, procSecs tck x.2.2⟩) →
+      s o = q.map (fun x => ⟨procStamp c (numCpus k) x.1, procSecs tck x.2.1, procSecs tck x.2.2⟩) →
       (prunAll c tck s h) o
         = (h.foldl (pprevStep o) q).map
-            (fun x => ⟨x.1 * numCpus k, procSecs tck x.2.1, procSecs tck x.2.2⟩) := by
+            (fun x => ⟨procStamp c (numCpus k) x.1, procSecs tck x.2.1, procSecs tck x.2.2⟩) := by
   induction h with
   | nil => intro s q o hs; exact hs
   | cons p ps ih =>
@@ -68,5 +82,29 @@ theorem prunAll_entry (c : Cfg) (hg : c.Good) (tck : Nat) (k : Option Int) (h : 
       | some v => obtain ⟨w, u, st⟩ := v; simp
     · rw [pstep_other c tck s p o ho]
       simpa [ho] using hs
+
+/-- the repaired shape remembers the raw clock: after ANY history (any CPU counts) an object's
+    remembered samples are those of its own previous call -/
+theorem prunAll_entry_fixed (c : Cfg) (hs : c.procScaleDelta = true) (tck : Nat) (h : List PCall) :
+    ∀ (s : PSt) (q : Option (Rat × Nat × Nat)) (o : Nat),
+      s o = q.map (fun x => ⟨x.1, procSecs tck x.2.1, procSecs tck x.2.2⟩) →
+      (prunAll c tck s h) o
+        = (h.foldl (pprevStep o) q).map (fun x => ⟨x.1, procSecs tck x.2.1, procSecs tck x.2.2⟩) := by
+  induction h with
+  | nil => intro s q o hq; exact hq
+  | cons p ps ih =>
+    intro s q o hq
+    simp only [prunAll, List.foldl_cons]
+    apply ih
+    unfold pprevStep
+    by_cases ho : p.obj = o
+    · subst ho
+      rw [pstep_same]
+      simp only [if_true]
+      cases ptaken p with
+      | none => simpa using hq
+      | some v => obtain ⟨w, u, st⟩ := v; simp [procStamp, hs]
+    · rw [pstep_other c tck s p o ho]
+      simpa [ho] using hq
 
 end Psutil.C07
